@@ -1027,6 +1027,8 @@ def enc_call(c):
 
 
 def encode(c):
+    if c.get('nomodel'):
+        return None          # far more fields than the exact model can carry in the quick tier: decided by the oracle
     if c['op'] == 'soff':        # Model/Segment.v slice_offset_any (theorem C03_slice_offset_outcome)
         return [9, 1, SOFF_KIND[c['form']]] + list(c['box']) + list(c['shape'])
     if c['op'] == 'relay':
@@ -1152,7 +1154,7 @@ def run_variant(lentil, c, seg, w0=None):
     except Exception as e:
         return {'err': type(e).__name__}
     res = {'pre_field': P7.view(lambda: w.field), 'pre_intensity': P7.view(lambda: w.intensity),
-           'post': do_call(lentil, w, c)}
+           'post': do_call(lentil, w, c), 'nfields': len(w.data)}
     if c['op'] != 'rseg':
         # amplitudes were scaled by f = prod 2^-ascale: undo the scaling (exactly) before anything is compared
         f = 1.0
@@ -1388,6 +1390,24 @@ def oracle(c, impl):
             return m
     return None
 
+
+
+# ------------------------------------------------------------------ recorded finding
+RECURSION_FIELDS = 800      # fewer overlapping fields than this and a RecursionError is NOT the recorded finding
+
+
+def known_match(f, c, impl):
+    """C03-reduce-recursion: Wavefront.intensity (field.reduce -> _disjoint, one recursion per merge) raises
+    RecursionError on the segmented wavefront although it holds more than RECURSION_FIELDS fields, while the
+    monolithic description of the same chain works; any other exception, or the same one with fewer fields, alarms"""
+    if f['id'] != 'C03-reduce-recursion' or c.get('op') != 'seg' or not isinstance(impl, dict):
+        return False
+    sg, mo = impl.get('seg'), impl.get('mono')
+    if not isinstance(sg, dict) or not isinstance(mo, dict) or 'err' in sg or 'err' in mo:
+        return False
+    return (sg.get('pre_intensity') == {'err': 'RecursionError'} and sg.get('nfields', 0) > RECURSION_FIELDS
+            and 'err' not in mo.get('pre_intensity', {'err': 1}) and 'err' not in sg.get('pre_field', {'err': 1})
+            and sg.get('pre_field') == mo.get('pre_field'))
 
 
 # ------------------------------------------------------------------ WP-T3: translation layer (source -> Gallina)
